@@ -74,6 +74,7 @@ func init() {
 				{Scenario: "c04_ackseq", Params: mustJSON(AckSeqParams{Resume: 0, Len: l}), Bound: 0, Shards: 4},
 				{Scenario: "c04_ackseq", Params: mustJSON(AckSeqParams{Resume: 2, Len: l}), Bound: 0, Shards: 4},
 				{Scenario: "c04_ackseq", Params: mustJSON(AckSeqParams{Resume: 0, Len: l, SysEvent: true}), Bound: 0, Shards: 8, Note: "alphabet extended by a non-document event (seqno-advanced) that settles itself"},
+				{Scenario: "c09_singleton", Params: mustJSON(struct{}{}), Bound: 0, Note: "a member whose assigned range is a single vBucket (incl. 0..0): acknowledgements move its position and the next save writes it"},
 				{Scenario: "c04_range", Params: mustJSON(RangeParams{Commit: true}), Bound: 0},
 				{Scenario: "c04_range", Params: mustJSON(RangeParams{Commit: false}), Bound: 0},
 				{Scenario: "c04_range", Params: mustJSON(RangeParams{Commit: true, Still: true}), Bound: 0},
